@@ -21,34 +21,58 @@ fn agree(v: OwnedValue) {
     core::mem::forget((p, v));
 }
 
-// @vt prop=C10 tier=quick bound="index probe key vs stored key: Null, Bool, Int, Float, Date, Time, Timestamp with arbitrary payload" outside="other variants (sibling harnesses)" timeout=900
+// @vt prop=C10 tier=quick bound="index probe key vs stored key: Null, Bool, Int, Float, Date, Time, Timestamp with arbitrary payload" outside="other variants (sibling harnesses)" timeout=1800
 vt_proof! { unwind = 12; fn c10_probe_key_scalars() {
     agree(OwnedValue::Null); agree(OwnedValue::Bool(kani::any())); agree(OwnedValue::Int(kani::any())); agree(OwnedValue::Float(kani::any()));
     agree(OwnedValue::Date(kani::any())); agree(OwnedValue::Time(kani::any())); agree(OwnedValue::Timestamp(kani::any()));
     kani::cover!(true, "w:reached_end");
 }}
 
-// @vt prop=C10 tier=quick bound="index probe key vs stored key: TimestampTz, Interval, Enum, MacAddr, Inet4 with arbitrary payload" outside="other variants" timeout=1800 mem=16
-vt_proof! { unwind = 20; fn c10_probe_key_intervals_small_ids() {
+// NOTE: MacAddr / Inet4 / Inet6 / Jsonb keys go through the escaped-bytes encoder (every 0x00 / 0xFF byte is expanded),
+// so with symbolic bytes the write position in the key buffer is symbolic; the same holds for sequences of floats
+// (1-byte vs 9-byte forms). Measured: 16 symbolic bytes / 3 floats exhaust 16-24 GB. The quick tier therefore keeps
+// only a few bytes of those payloads symbolic (the rest a fixed non-special filler), the thorough tier has the full ones.
+
+// @vt prop=C10 tier=quick bound="index probe key vs stored key: TimestampTz, Interval, Enum with arbitrary payload" outside="other variants" timeout=1800 mem=16
+vt_proof! { unwind = 20; fn c10_probe_key_intervals() {
     agree(OwnedValue::TimestampTz(kani::any(), kani::any())); agree(OwnedValue::Interval(kani::any(), kani::any(), kani::any()));
-    agree(OwnedValue::Enum(kani::any(), kani::any())); agree(OwnedValue::MacAddr(kani::any())); agree(OwnedValue::Inet4(kani::any()));
+    agree(OwnedValue::Enum(kani::any(), kani::any()));
     kani::cover!(true, "w:reached_end");
 }}
 
-// @vt prop=C10 tier=quick bound="index probe key vs stored key: Uuid, Inet6 (16 arbitrary bytes)" outside="other variants" timeout=1800 mem=16
-vt_proof! { unwind = 20; fn c10_probe_key_uuid_inet6() {
-    agree(OwnedValue::Uuid(kani::any())); agree(OwnedValue::Inet6(kani::any()));
+// @vt prop=C10 tier=quick bound="index probe key vs stored key: MacAddr / Inet4 with the first two bytes arbitrary (rest a fixed filler)" outside="fully arbitrary address bytes and Inet6 (thorough)" timeout=1800 mem=16
+vt_proof! { unwind = 20; fn c10_probe_key_small_addresses() {
+    let (x, y): (u8, u8) = (kani::any(), kani::any());
+    agree(OwnedValue::MacAddr([x, y, 0x11, 0x11, 0x11, 0x11])); agree(OwnedValue::Inet4([x, y, 0x11, 0x11]));
+    kani::cover!(x == 0 && y == 0xFF, "w:escaped_bytes_in_address");
+}}
+
+// @vt prop=C10 tier=quick bound="index probe key vs stored key: Uuid (16 arbitrary bytes)" outside="other variants" timeout=1800 mem=16
+vt_proof! { unwind = 20; fn c10_probe_key_uuid() {
+    agree(OwnedValue::Uuid(kani::any()));
     kani::cover!(true, "w:reached_end");
 }}
 
-// @vt prop=C10 tier=quick bound="index probe key vs stored key: Point, Circle, Box with arbitrary f64 payloads" outside="Decimal (float division and 10^scale)" timeout=1200 mem=24
-vt_proof! { unwind = 12; fn c10_probe_key_geometry() {
-    agree(OwnedValue::Point(kani::any(), kani::any())); agree(OwnedValue::Circle((kani::any(), kani::any()), kani::any()));
+// @vt prop=C10 tier=thorough bound="index probe key vs stored key: MacAddr, Inet4, Inet6 with fully arbitrary bytes" outside="-" timeout=3600 mem=44
+vt_proof! { unwind = 20; fn c10_probe_key_addresses_full() {
+    agree(OwnedValue::MacAddr(kani::any())); agree(OwnedValue::Inet4(kani::any())); agree(OwnedValue::Inet6(kani::any()));
+    kani::cover!(true, "w:reached_end");
+}}
+
+// @vt prop=C10 tier=quick bound="index probe key vs stored key: Point with arbitrary f64 payloads" outside="Circle / Box (thorough); Decimal (float division and 10^scale)" timeout=1800 mem=16
+vt_proof! { unwind = 20; fn c10_probe_key_point() {
+    agree(OwnedValue::Point(kani::any(), kani::any()));
+    kani::cover!(true, "w:reached_end");
+}}
+
+// @vt prop=C10 tier=thorough bound="index probe key vs stored key: Circle, Box with arbitrary f64 payloads" outside="Decimal" timeout=3600 mem=44
+vt_proof! { unwind = 40; fn c10_probe_key_geometry() {
+    agree(OwnedValue::Circle((kani::any(), kani::any()), kani::any()));
     agree(OwnedValue::Box((kani::any(), kani::any()), (kani::any(), kani::any())));
     kani::cover!(true, "w:reached_end");
 }}
 
-// @vt prop=C10 tier=quick bound="index probe key vs stored key: Text (ASCII) / Blob / Jsonb / ToastPointer of 0..=2 arbitrary bytes, Vector of 0..=1 f32" outside="longer payloads" timeout=900
+// @vt prop=C10 tier=quick bound="index probe key vs stored key: Text (ASCII) / Blob / Jsonb / ToastPointer of 0..=2 arbitrary bytes, Vector of 0..=1 f32" outside="longer payloads" timeout=1800
 vt_proof! { unwind = 12; fn c10_probe_key_bytes() {
     let d: [u8; 2] = kani::any(); let n: usize = kani::any(); kani::assume(n <= 2);
     if n == 0 { bytes_case(&d, 0) } else if n == 1 { bytes_case(&d, 1) } else { bytes_case(&d, 2) }
@@ -61,7 +85,7 @@ fn bytes_case(d: &[u8; 2], n: usize) {
     agree(OwnedValue::Vector(if n == 0 { Vec::new() } else { let mut x = Vec::with_capacity(1); x.push(f); x }));
 }
 
-// @vt prop=C10 tier=quick bound="planner literal encoders: every i64 and every f64 bit pattern against encoding::key::encode_{int,float}" outside="strings (c10_planner_text_key)" timeout=1800 mem=16
+// @vt prop=C10 tier=thorough bound="planner literal encoders: every i64 and every f64 bit pattern against encoding::key::encode_{int,float}" outside="strings (c10_planner_text_key)" timeout=3600 mem=44
 vt_proof! { unwind = 12; fn c10_planner_number_keys_equal_index_keys() {
     use turdb::sql::planner::encoding::verif_hooks as pl;
     let arena = core::mem::ManuallyDrop::new(bumpalo::Bump::with_capacity(128));
